@@ -26,6 +26,7 @@ type c17Rep struct {
 	Broken     bool   `json:"broken"` // permanently broken replication (errno 1146)
 	Resetup    string `json:"resetup"` // "fresh_false" | "fresh_true" | "stale_false" | "missing"
 	Down       bool   `json:"down"`
+	NoChan     bool   `json:"nochan,omitempty"` // no replication channel (a host being re-initialised, a stale master): it reports itself as a master
 }
 type c17In struct {
 	Reps         []c17Rep `json:"reps"`
@@ -99,6 +100,9 @@ func c17Run(in c17In) c17Out {
 			n.Chan.SQL = false
 			n.Chan.SQLErrno = 1146
 			n.LagAlways = r.Lag >= 0
+		}
+		if r.NoChan {
+			n.Chan, n.Retrieved = nil, ""
 		}
 		d.rawSet(dcs.JoinPath(pathHANodes, h), mysql.NodeConfiguration{})
 		switch r.Resetup {
@@ -342,6 +346,9 @@ func c17Gen(o *vk.Out) c17In {
 	for i := 0; i < k; i++ {
 		in.Reps = append(in.Reps, c17Rep{Zone: []string{"z1", "z1", "z2", "", "z3"}[r.Intn(5)], Lag: lagGrid[r.Intn(len(lagGrid))], Offline: r.Intn(3) == 0,
 			Broken: r.Intn(3) == 0, Resetup: []string{"fresh_false", "fresh_false", "fresh_true", "stale_false", "missing"}[r.Intn(5)], Down: r.Intn(12) == 0})
+		if r.Intn(8) == 0 {
+			in.Reps[i].NoChan = true
+		}
 		// a lag source with sub-second resolution (quarters: exact in binary floating point)
 		if in.Reps[i].Lag >= 0 {
 			in.Reps[i].LagMilli = []int64{0, 0, 0, 250, 500, 750}[r.Intn(6)]
